@@ -8,6 +8,13 @@ def hook_commits():
     return [l.split()[0] for l in out.splitlines() if "verif hook" in l]
 
 CLAIMED = {
+ "C16": dict(
+   level="exploration",
+   text="One real node (routing/verification/consensus) with 2-3 scripted peers authenticated through the real handshake; 5..60/200 seeded operations (announce by any peer in any height order incl. the same block by several peers and unknown hashes, timer rounds, fetch completions with the right / undecodable / wrong block, fetch failures, disconnects), everything driven through the routing layer. Oracle at the I/O boundary after every operation: in-flight per peer <= batch size, no (peer, hash) in flight twice, no never-requested lower height skipped, every announced real block requested or present after faults stop, at most 501 requests per peer for a block that always fails.",
+   design="§6 C16",
+   note="Trusted: scripted peers and the definition of in-flight (requested via InterfaceIO, not yet completed by the simulated controller). Fetches of children whose parent is unknown are failed by the scripted server so that the orphan known finding does not interfere.",
+   technique="deterministic simulation: seeded announce/complete/fail/timer sequences through the routing layer + in-flight reference model at the I/O boundary"),
+
  "C17": dict(
    level="exploration",
    text="Honest nodes A (dials out) and B (accepts) with the real routing/Network/Peer handshake code; the attacker is the network between them and may open further connections: 2..8/12 moves from 17 kinds (forward, drop, replay, reflect, redirect, own-key answer, unsolicited / self-signed / other-connection / used-challenge / wrong-version answers, own challenge, open, close). After every delivery to an honest node a provenance monitor checks that Connected-under-K only follows a response on that very connection signed by K over an outstanding challenge this node sent there, at most once per challenge, never the node's own key, and that authenticated peers and the key->connection mapping are undisturbed by messages that authenticate nobody.",
